@@ -269,3 +269,66 @@ class ConvertConditionDispatch(Contract):
 
     def frame_ok(self, I, inp, obj, name):
         return False
+
+
+DETM = "sigma.rule.detection"
+
+
+@register
+class DetectionItemPostprocess(Contract):
+    """SigmaDetectionItem.postprocess: no value -> field is null; one value -> one comparison; several -> the item's linking (OR / AND) over
+    one comparison per value, in order; a negated item (neq) is the NOT of that - and the NOT is a real node of the tree: it is the parent
+    of what it negates and hangs under the item's parent (backends decide on negated templates by walking the parent chain)"""
+    id = "C01.SigmaDetectionItem.postprocess"
+    target = f"{DETM}:SigmaDetectionItem.postprocess"
+    props = ("C01", "C02", "C03")
+    cases = tuple((nv, fld, neg, link) for nv in (0, 1, 2, 3) for fld in (True, False) for neg in (False, True) for link in ("ConditionOR", "ConditionAND") if not (nv < 2 and link == "ConditionAND"))
+    assumed = ["values are abstract objects"]
+
+    def args(self, I, case):
+        nv, fld, neg, link = case
+        idx = I.E.index
+        vals = [SObj("Value", {}, ghost={"i": i}) for i in range(nv)]
+        field = I.fresh("field", "str") if fld else None
+        me = SObj(idx.lookup(f"{DETM}:SigmaDetectionItem"), {"field": field, "value": vals, "negated": neg, "value_linking": ClassRef(idx.lookup(f"sigma.conditions:{link}")), "source": None, "parent": None}, lazy=True)
+        parent = SObj("ParentDetection", {})
+        return {"self": me, "args": [I.fresh("detections", "opaque", "Detections"), parent], "vals": vals, "field": field, "parent": parent, "case": case}
+
+    def post(self, I, inp, r):
+        nv, fld, neg, link = inp["case"]
+        c, me = I.ctx, inp["self"]
+        c.require(not (nv == 0 and not fld), "a null value without field is rejected")
+        node = r
+        if neg:
+            ok = isinstance(r, SObj) and getattr(r.cls, "name", "") == "ConditionNOT" and isinstance(r.fields.get("args"), list) and len(r.fields["args"]) == 1
+            c.require(ok, "a negated item yields NOT(one operand)")
+            if not ok:
+                return
+            node = r.fields["args"][0]
+            c.require(r.fields.get("parent") is inp["parent"], "the NOT hangs under the item's parent")
+            c.require(isinstance(node, SObj) and node.fields.get("parent") is r, "the negated condition's parent is the NOT (the NOT is in the parent chain of everything it negates)")
+
+        def leaf(x, v):
+            name = getattr(x.cls, "name", "") if isinstance(x, SObj) else ""
+            if fld:
+                return name == "ConditionFieldEqualsValueExpression" and x.fields.get("field") is inp["field"] and (x.fields.get("value") is v if v is not None else getattr(getattr(x.fields.get("value"), "cls", None), "name", "") == "SigmaNull")
+            return name == "ConditionValueExpression" and x.fields.get("value") is v
+        if nv <= 1:
+            c.require(leaf(node, inp["vals"][0] if nv else None), "one comparison of the field with the value (null without value; value-only for keywords)")
+            if not neg and isinstance(node, SObj):
+                c.require(node.fields.get("parent") is me, "a single comparison hangs under the detection item")
+        else:
+            ok = isinstance(node, SObj) and getattr(node.cls, "name", "") == link and isinstance(node.fields.get("args"), list) and len(node.fields["args"]) == nv
+            c.require(ok, f"{link} over one comparison per value")
+            if ok:
+                c.require(all(leaf(x, v) for x, v in zip(node.fields["args"], inp["vals"])), "comparisons in value order")
+                c.require(all(isinstance(x, SObj) and x.fields.get("parent") is node for x in node.fields["args"]), "every comparison's parent is the linking node")
+                if not neg:
+                    c.require(node.fields.get("parent") is inp["parent"], "the linking node hangs under the item's parent")
+
+    def raises(self, I, inp, exc):
+        nv, fld, neg, link = inp["case"]
+        I.ctx.require(exc_is(I, exc, "SigmaConditionError") and nv == 0 and not fld, f"SigmaConditionError exactly for a null value without field (got {exc_name(exc)})", kind="SAFE")
+
+    def frame_ok(self, I, inp, obj, name):
+        return obj is inp["self"] and name in ("parent", "source")
